@@ -253,6 +253,12 @@ def check_las(rec, fmt, text, exp, w):
         want_step = (x_last - x_first) / (len(written) - 1)
         if 'STEP' not in wsec or not _isnum(wsec['STEP'][1]):
             rec.violation('start_stop_step', 'STEP-missing', '%s: well section has no numeric STEP (has %s)' % (fmt, sorted(wsec)), dict(w, key='STEP', well=sorted(wsec), **facts))
+            # the BIT converter writes the step under the mnemonic STRP (finding F9b): its value is held to the same standard
+            if 'STRP' in wsec and _isnum(wsec['STRP'][1]):
+                gotv = frac(wsec['STRP'][1])
+                if abs(gotv - want_step) > exp['x_tol'](want_step) + exp['x_tol'](x_last - x_first):
+                    rec.violation('start_stop_step', 'STEP', '%s: the step line (STRP) is %s but the mean spacing of the %d rows written is %s' % (fmt, wsec['STRP'][1], len(written), float(want_step)),
+                                  dict(w, key='STRP', got=float(gotv), expected=float(want_step), **facts))
             return
         gotv = frac(wsec['STEP'][1])
         if abs(gotv - want_step) > exp['x_tol'](want_step) + exp['x_tol'](x_last - x_first):
@@ -440,10 +446,11 @@ def run_rp66v1(ctx, p, audit):
         special = {7: 'long', 23: 'many-pass'}.get(si % 50)
         if special == 'long':
             # a log longer than any per-call buffer and than one byte of frame number: 128 .. 1100 frames, few channels
+            very_long = rng.random() < 0.35           # beyond 2048 rows: longer than any block of rows a writer may buffer
             for _ in range(30):
-                lrs, model = dlis_convertible.convertible_file(rng, max_frames=rng.choice([200, 400, 1100]), max_logical_files=1, max_types=1,
-                                                               max_channels=3, name_pool=pool)
-                if max(len(ft.frames) for lf in model.logical_files for ft in lf.frame_types) >= 128:
+                lrs, model = dlis_convertible.convertible_file(rng, max_frames=2600 if very_long else rng.choice([200, 400, 1100]), max_logical_files=1, max_types=1,
+                                                               max_channels=3, name_pool=pool, min_frames=2049 if very_long else 2)
+                if max(len(ft.frames) for lf in model.logical_files for ft in lf.frame_types) >= (2049 if very_long else 128):
                     break
         elif special == 'many-pass':
             # more than ten log passes in one file (output names and result counts with two digits)
